@@ -220,7 +220,24 @@ def tokenize(text):
 DAMAGE_KINDS = ['drop', 'dup', 'swap', 'unterminated_string',
                 'unterminated_comment', 'bad_escape', 'huge_number',
                 'bad_pragma', 'undefined_alias', 'type_mismatch',
-                'random_text', 'odd_char', 'truncate', 'unknown_name']
+                'random_text', 'odd_char', 'truncate', 'unknown_name',
+                'bad_decl']
+
+# declarations that are grammatically fine and semantically wrong
+BAD_DECLS = [
+    'Qualifier DQ%d : uint8 = "abc", Scope(any);',
+    'Qualifier DQ%d : uint8 = 300, Scope(any);',
+    'Qualifier DQ%d : sint16 = -40000, Scope(property);',
+    'Qualifier DQ%d : datetime = "garbage", Scope(any);',
+    'Qualifier DQ%d : string[] = "a", Scope(any);',
+    'Qualifier DQ%d : string = {"a"}, Scope(any);',
+    'Qualifier DQ%d : real32 = "x", Scope(any);',
+    'Qualifier DQ%d : boolean = "yes", Scope(any);',
+    'Qualifier DQ%d : char16 = "toolong", Scope(any);',
+    'class DC%d { [EmbeddedInstance] string p; NoSuchRefCls REF r; };',
+    'class DC%d { [EmbeddedInstance(null)] string p; };',
+    'class DC%d { [Key] string k; [MaxLen("x")] string p; };',
+]
 
 BAD_PRAGMAS = ['#pragma namespace ("1:")', '#pragma namespace ("")',
                '#pragma namespace ("http://host/root/x")',
@@ -329,6 +346,12 @@ def damage(r, text, kind=None):
                                  '300', '-129', '65536']), 'num')
             return join(toks), 'huge number %s' % toks[i][0][:12]
         kind = 'type_mismatch'
+    if kind == 'bad_decl':
+        d = r.choice(BAD_DECLS) % r.randrange(1000)
+        if r.random() < 0.5:
+            return d + '\n' + text, 'bad declaration %r' % d[:40]
+        return text.rstrip('\n') + '\n' + d + '\n', \
+            'bad declaration %r' % d[:40]
     if kind == 'bad_pragma':
         i = r.choice(idx)
         # at a production boundary if possible
